@@ -68,7 +68,7 @@ Proof.
       apply files_of_chunk. apply (perm_b_spec _ _ Hp). exact Hn.
     + inversion Hk; subst. simpl. exists bl, (b_index bl). split; [exact Hu|]. split; [apply files_of_index|reflexivity].
   - simpl. split; [|exact I]. exists bl, cid, lbl. split; [exact Hu|]. split; [reflexivity|].
-    apply upload_data_present; assumption.
+    apply (upload_data_present U); assumption.
 Qed.
 
 (* a completed upload of a known block leaves its meta.json in the bucket *)
@@ -112,7 +112,7 @@ Lemma delete_ops_std b id order l :
       ++ [Del (id, FDirChunks); Del (id, FDirBlock)].
 Proof.
   unfold delete_ops. destruct (perm_files order (rest_files b id)) eqn:Hp; [|discriminate].
-  intros H. inversion H. split; [reflexivity|]. simpl. rewrite app_nil_r. reflexivity.
+  intros H. inversion H. split; [reflexivity|]. reflexivity.
 Qed.
 
 Lemma delete_all_dels b id order l :
@@ -163,7 +163,7 @@ Proof.
   intros H. unfold block_gone_b. apply forallb_forall. intros [i f] Hk. simpl.
   destruct (N.eqb i id) eqn:E; [|reflexivity]. apply N.eqb_eq in E. subst i. simpl.
   destruct (is_dirmarker f) eqn:Hd; [reflexivity|].
-  apply (keys_get key obj key_eqb key_eqb_spec) in Hk as [v Hv].
+  apply (keys_get key obj key_eqb key_ltb key_eqb_spec) in Hk as [v Hv].
   specialize (H f Hd). unfold bget in H. congruence.
 Qed.
 
@@ -248,4 +248,143 @@ Proof.
     + apply orb_true_iff. right. apply gone_spec. intros f Hd.
       apply (get_none_after_dels key obj key_eqb key_ltb key_eqb_spec [Del (id, FDirChunks); Del (id, FDirBlock)]); [reflexivity|].
       apply Hgone; exact Hd.
+Qed.
+
+(* ---------------- block.MarkForDeletion ---------------- *)
+Lemma mark_guarded U b id sz : bguarded U b (mark_ops b id sz).
+Proof.
+  unfold mark_ops. destruct (bhas b (id, FDelMark)); simpl; [exact I|]. split; exact I.
+Qed.
+
+Lemma mark_final b id sz : bhas (bapply_ops b (mark_ops b id sz)) (id, FDelMark) = true.
+Proof.
+  unfold mark_ops. destruct (bhas b (id, FDelMark)) eqn:E; simpl; [exact E|].
+  apply bhas_true. fold bput. rewrite bget_put_same. discriminate.
+Qed.
+
+(* ---------------- ensureBlockIsReplicated ---------------- *)
+Definition chunk_keys (src : bucket) (id : N) : list key :=
+  filter (fun k => is_chunk (snd k)) (block_keys src id).
+
+Definition src_val (src : bucket) (k : key) : obj :=
+  match bget src k with Some o => o | None => Blob 0 end.
+
+Definition copy_keys (src dst : bucket) (id : N) : list key :=
+  filter (fun k => negb (bhas dst k)) (chunk_keys src id ++ [(id, FIndex)]).
+
+Lemma seq_opt_copy src dst ks :
+  (forall k, In k ks -> bget src k <> None) ->
+  seq_opt (map (copy_ops src dst) ks)
+  = Some (map (fun k => Up k (src_val src k)) (filter (fun k => negb (bhas dst k)) ks)).
+Proof.
+  induction ks as [|k r IH]; intros H; simpl; [reflexivity|].
+  rewrite IH by (intros k' Hk'; apply H; right; exact Hk').
+  unfold copy_ops at 1. destruct (bhas dst k) eqn:Hh; simpl; [reflexivity|].
+  destruct (bget src k) as [o|] eqn:Hg.
+  - replace (src_val src k) with o by (unfold src_val; rewrite Hg; reflexivity). reflexivity.
+  - exfalso. apply (H k); [left; reflexivity|exact Hg].
+Qed.
+
+Lemma chunk_keys_spec src id k :
+  In k (chunk_keys src id) <-> In k (map fst src) /\ fst k = id /\ is_chunk (snd k) = true.
+Proof.
+  unfold chunk_keys, block_keys. rewrite !filter_In, N.eqb_eq. tauto.
+Qed.
+
+(* the op log of a replication that finds the origin block complete *)
+Lemma replicate_ops_std U src dst id om :
+  binv U src -> bget src (id, FMeta) = Some om ->
+  same_content om (bget dst (id, FMeta)) = false ->
+  replicate_ops std_replicate src dst id
+  = map (fun k => Up k (src_val src k)) (copy_keys src dst id) ++ [Up (id, FMeta) om]
+  /\ all_some (A := list bop) (map (replicate_phase src dst id om) std_replicate) <> None.
+Proof.
+  intros [_ Hco] Hm Hs. destruct (Hco _ _ Hm) as [bl [cid [lbl [Hu [Ho Hall]]]]].
+  assert (Hidx : bget src (id, FIndex) <> None).
+  { rewrite (Hall FIndex (b_index bl) (files_of_index bl) eq_refl). discriminate. }
+  assert (Hck : forall k, In k (chunk_keys src id) -> bget src k <> None).
+  { intros k Hk. apply chunk_keys_spec in Hk as [Hk _].
+    apply (keys_get key obj key_eqb key_ltb key_eqb_spec) in Hk as [v Hv]. unfold bget. congruence. }
+  unfold replicate_ops. rewrite Hm, Hs. unfold std_replicate. simpl.
+  fold (chunk_keys src id).
+  rewrite (seq_opt_copy src dst (chunk_keys src id) Hck).
+  pose proof (seq_opt_copy src dst [(id, FIndex)]) as Hi. simpl in Hi.
+  assert (Hi' : copy_ops src dst (id, FIndex)
+                = Some (map (fun k => Up k (src_val src k)) (filter (fun k => negb (bhas dst k)) [(id, FIndex)]))).
+  { specialize (Hi ltac:(intros k [Hk|[]]; subst; exact Hidx)).
+    destruct (copy_ops src dst (id, FIndex)) as [x|]; [|discriminate].
+    rewrite app_nil_r in Hi. exact Hi. }
+  rewrite Hi'. split.
+  - unfold copy_keys. rewrite filter_app, map_app. rewrite <- app_assoc. reflexivity.
+  - simpl. discriminate.
+Qed.
+
+Lemma copy_keys_data src dst id k :
+  In k (copy_keys src dst id) -> fst k = id /\ is_data (snd k) = true /\ bhas dst k = false.
+Proof.
+  unfold copy_keys. rewrite filter_In. intros [Hk Hh].
+  split; [|split; [|destruct (bhas dst k); [discriminate|reflexivity]]].
+  - apply in_app_or in Hk as [Hk|[Hk|[]]]; [apply chunk_keys_spec in Hk; tauto|subst; reflexivity].
+  - apply in_app_or in Hk as [Hk|[Hk|[]]].
+    + apply chunk_keys_spec in Hk as [_ [_ Hc]]. destruct k as [i f]. simpl in *. destruct f; try discriminate; reflexivity.
+    + subst; reflexivity.
+Qed.
+
+Lemma replicate_guarded U src dst id :
+  wf_univ U -> binv U src -> binv U dst ->
+  bguarded U dst (replicate_ops std_replicate src dst id).
+Proof.
+  intros Hwf Hsrc Hdst.
+  destruct (bget src (id, FMeta)) as [om|] eqn:Hm.
+  2:{ unfold replicate_ops. rewrite Hm. exact I. }
+  destruct (same_content om (bget dst (id, FMeta))) eqn:Hs.
+  1:{ unfold replicate_ops. rewrite Hm, Hs. exact I. }
+  destruct (replicate_ops_std U src dst id om Hsrc Hm Hs) as [Hops _]. rewrite Hops.
+  destruct Hsrc as [Hag Hco]. destruct (Hco _ _ Hm) as [bl [cid [lbl [Hu [Ho Hall]]]]].
+  apply guarded_app. split.
+  - apply guarded_stateless. intros o Ho' s. apply in_map_iff in Ho' as [k [Ho' Hk]]. subst o.
+    pose proof (copy_keys_data _ _ _ _ Hk) as [Hi [Hd _]]. destruct k as [i f]. simpl in *. subst i.
+    rewrite Hd.
+    assert (Hg : bget src (id, f) <> None).
+    { unfold copy_keys in Hk. apply filter_In in Hk as [Hk _]. apply in_app_or in Hk as [Hk|[Hk|[]]].
+      - apply chunk_keys_spec in Hk as [Hk _].
+        apply (keys_get key obj key_eqb key_ltb key_eqb_spec) in Hk as [v Hv]. unfold bget. congruence.
+      - inversion Hk; subst. rewrite (Hall FIndex (b_index bl) (files_of_index bl) eq_refl). discriminate. }
+    unfold src_val. destruct (bget src (id, f)) as [o|] eqn:Hgo; [|congruence].
+    destruct (Hag _ _ _ Hd Hgo) as [bl' [sz [Hu' [Hin Hv]]]]. exists bl', sz. auto.
+  - simpl. split; [|exact I]. exists bl, cid, lbl. split; [exact Hu|]. split; [exact Ho|].
+    intros f sz Hin Hd. specialize (Hall f sz Hin Hd).
+    destruct (bhas dst (id, f)) eqn:Hh.
+    + (* already in the target: same size by agreement with the universe *)
+      unfold bapply_ops, bget.
+      rewrite (get_after_ups_map_other key obj key_eqb key_ltb key_eqb_spec).
+      2:{ intros Hk. apply copy_keys_data in Hk as [_ [_ Hk]]. congruence. }
+      apply bhas_true in Hh. destruct (bget dst (id, f)) as [o|] eqn:Hgo; [|congruence].
+      destruct Hdst as [Hagd _]. destruct (Hagd _ _ _ Hd Hgo) as [bl' [sz' [Hu' [Hin' Hv]]]].
+      rewrite Hu in Hu'. inversion Hu'; subst bl'. subst o. fold (bget dst (id, f)). rewrite Hgo.
+      destruct (files_of_data _ _ _ (Hwf _ _ Hu) Hin Hd) as [E1 _].
+      destruct (files_of_data _ _ _ (Hwf _ _ Hu) Hin' Hd) as [E2 _].
+      rewrite E1, E2. reflexivity.
+    + unfold bapply_ops, bget.
+      rewrite (get_after_ups_map key obj key_eqb key_ltb key_eqb_spec (src_val src)).
+      * unfold src_val. rewrite Hall. reflexivity.
+      * unfold copy_keys. apply filter_In. split; [|rewrite Hh; reflexivity].
+        apply in_or_app. destruct (files_of_data _ _ _ (Hwf _ _ Hu) Hin Hd) as [_ [[n [Hf _]]|Hf]]; subst f.
+        -- left. apply chunk_keys_spec. split; [|split; reflexivity].
+           apply (get_some_keys key obj key_eqb key_eqb_spec) with (v := Blob sz). exact Hall.
+        -- right. left. reflexivity.
+Qed.
+
+(* a replication that returns nil left the origin's meta.json in the target *)
+Lemma replicate_final U src dst id om :
+  binv U src -> bget src (id, FMeta) = Some om ->
+  same_content om (bget (bapply_ops dst (replicate_ops std_replicate src dst id)) (id, FMeta)) = true.
+Proof.
+  intros Hsrc Hm.
+  destruct (same_content om (bget dst (id, FMeta))) eqn:Hs.
+  - unfold replicate_ops. rewrite Hm, Hs. exact Hs.
+  - destruct (replicate_ops_std U src dst id om Hsrc Hm Hs) as [Hops _]. rewrite Hops.
+    rewrite bapply_ops_app. simpl. fold bput. rewrite bget_put_same.
+    destruct Hsrc as [_ Hco]. destruct (Hco _ _ Hm) as [bl [cid [lbl [_ [Ho _]]]]]. subst om.
+    simpl. apply N.eqb_refl.
 Qed.
